@@ -468,6 +468,86 @@ fn boundary_cases(seed: u64, reps: usize) -> Vec<Case> {
 	out
 }
 
+// ---------------------------------------------------------------------------------------------------------------
+// Stress (real threads): several tasks on a multi-threaded runtime issue batch requests on ONE client at the same
+// instant. The ids of batches that are outstanding together must be pairwise distinct (otherwise an answer can be
+// positional for the wrong batch); every batch must come back with its own answers.
+
+async fn concurrent_batches(seed: u64, rounds: usize, tasks: usize) -> (usize, Vec<(String, String)>) {
+	let mut violations: Vec<(String, String)> = Vec::new();
+	let mut r = Rng::new(seed);
+	let (client, mut srv) = client(ClientCfg { string_ids: r.bool(), ..Default::default() });
+	let mut batches = 0usize;
+	for round in 0..rounds {
+		let barrier = Arc::new(tokio::sync::Barrier::new(tasks));
+		let mut hs = Vec::new();
+		for t in 0..tasks {
+			let (c, b) = (client.clone(), barrier.clone());
+			let n = 1 + (r.below(4) as usize + t) % 4;
+			hs.push(tokio::spawn(async move {
+				let mut bb = BatchRequestBuilder::new();
+				for j in 0..n {
+					bb.insert("call", rpc_params![format!("r{round}t{t}e{j}")]).unwrap();
+				}
+				b.wait().await;
+				let res: Result<BatchResponse<Value>, _> = c.batch_request(bb).await;
+				(t, n, res.map(to_entries).map_err(|e| err_kind(&e)))
+			}));
+		}
+		// all batches of the round are outstanding before any is answered
+		let mut msgs = Vec::new();
+		while msgs.len() < tasks {
+			match tokio::time::timeout(Duration::from_secs(20), srv.next_msg()).await {
+				Ok(Some((_, WireMsg::Batch(reqs)))) => msgs.push(reqs),
+				Ok(Some(_)) => {}
+				_ => break,
+			}
+		}
+		let mut seen: std::collections::HashMap<String, String> = Default::default();
+		for reqs in &msgs {
+			for q in reqs {
+				let id = q.id.clone().unwrap_or(Value::Null).to_string();
+				let tag = q.tag.clone().unwrap_or_default();
+				if let Some(other) = seen.insert(id.clone(), tag.clone()) {
+					if violations.len() < 10 {
+						violations.push(("id-collision/batch-vs-batch/concurrent-batches".into(), format!("round {round}: id {id} is on the wire for {other} and for {tag} at the same time")));
+					}
+				}
+			}
+		}
+		for reqs in msgs.iter().rev() {
+			let parts: Vec<String> = reqs.iter().rev().map(|q| ok_response(q.id.as_ref().unwrap_or(&Value::Null), json!({"tag": q.tag, "n": 1}))).collect();
+			srv.push_text(array_of(&parts));
+		}
+		for h in hs {
+			batches += 1;
+			match tokio::time::timeout(Duration::from_secs(20), h).await {
+				Ok(Ok((t, n, Ok((entries, _, _))))) => {
+					for (j, e) in entries.iter().enumerate() {
+						let want = format!("r{round}t{t}e{j}");
+						if !matches!(e, Ok(v) if v["tag"] == json!(want)) && violations.len() < 10 {
+							violations.push(("foreign-answer/complete/concurrent-batches".into(), format!("round {round}: entry {j} of the batch of task {t} holds {e:?}, the request there was {want}")));
+						}
+					}
+					if entries.len() != n && violations.len() < 10 {
+						violations.push(("wrong-length/complete/concurrent-batches".into(), format!("{} entries for a batch of {n}", entries.len())));
+					}
+				}
+				Ok(Ok((t, _, Err(e)))) => {
+					if violations.len() < 10 {
+						violations.push(("complete-reply-rejected/complete/concurrent-batches".into(), format!("round {round}: the batch of task {t} failed although every batch was answered completely: {e:?}")));
+					}
+				}
+				_ => {}
+			}
+		}
+		if !client.is_connected() {
+			break;
+		}
+	}
+	(batches, violations)
+}
+
 fn witness(c: &Case, o: &Outcome, client: &str) -> Value {
 	json!({"client": client, "n": c.n, "permutation": c.perm, "defect": format!("{:?}", c.defect), "errors_at": c.errs, "string_ids": c.string_ids,
 		"others_in_flight": [c.others.0, c.others.1], "calls_before_the_batch": c.warm, "wire_ids": o.wire_ids, "reply": o.reply_text, "result": format!("{:?}", o.result), "seed": c.seed})
@@ -522,6 +602,14 @@ fn main() {
 		let (ev, v) = run_cases(cases, true, false);
 		let sigs: Vec<String> = v.iter().map(|x| x.signature.clone()).collect();
 		println!("SUBRESULT {}", json!({"cases": ev.evaluations, "violation_signatures": sigs}));
+		return;
+	}
+	if ctx.sub.as_deref() == Some("stress") || ctx.sub.as_deref() == Some("tsan") {
+		let rounds: usize = ctx.arg_value("--rounds").and_then(|s| s.parse().ok()).unwrap_or(2000);
+		let seed = ctx.seed;
+		let (batches, v) = block_on_stress(8, concurrent_batches(seed, rounds, 8));
+		let sigs: Vec<String> = v.iter().map(|x| format!("{} ({})", x.0, x.1)).collect();
+		println!("SUBRESULT {}", json!({"mode": ctx.sub, "rounds": rounds, "batches": batches, "violation_signatures": sigs}));
 		return;
 	}
 	install_panic_capture(true);
@@ -583,6 +671,25 @@ fn main() {
 		}
 	}
 	let mut inconclusive = None;
+	if !replay {
+		// real threads: four tasks issue batches on one client at the same instant
+		let exe = std::env::current_exe().expect("exe");
+		let rounds = ctx.tier.pick("6000", "100000");
+		let o = std::process::Command::new(exe).args(["--sub", "stress", "--rounds", rounds]).env("VERIF_SEED", ctx.seed.to_string()).output();
+		match o.ok().and_then(|o| String::from_utf8(o.stdout).ok()).and_then(|s| s.lines().find_map(|l| l.strip_prefix("SUBRESULT ").map(|j| j.to_string()))) {
+			Some(j) => {
+				let v: Value = serde_json::from_str(&j).unwrap_or(Value::Null);
+				for s in v["violation_signatures"].as_array().cloned().unwrap_or_default() {
+					let s = s.as_str().unwrap_or("?");
+					violations.push(Violation::new(s.split(' ').next().unwrap_or(s).to_string(), s.to_string(), json!({"sub": "stress"})));
+				}
+				ev.evals(v["rounds"].as_u64().unwrap_or(0));
+				ev.count("stress_concurrent_batches", v["batches"].as_u64().unwrap_or(0));
+				ev.set("stress", v);
+			}
+			None => inconclusive = Some("native stress sub-run did not report".to_string()),
+		}
+	}
 	if ctx.tier == Tier::Thorough && !replay {
 		match sanit::run_miri("c12", &[], Duration::from_secs(1500)) {
 			SubOutcome::Clean(v) => {
